@@ -84,8 +84,10 @@ def gen_stmt_kind(rng, pool_ints, pool_arrs):
         rhs = g.int_expr(2)
         if rhs[0] == "call":
             rhs = ["nary", "sum", [rhs, ["int", 1]]]
-        if rng.random() < 0.9:
-            rhs = ["bin", "rem", rhs, ["int", 97]]      # keep values small (repeated products explode)
+        if loops or rng.random() < 0.9:
+            # keep values small: a looped statement that feeds on its own result squares it every trip, and every
+            # admissible schedule (up to 120) and every shrinking step repeats that arithmetic
+            rhs = ["bin", "rem", rhs, ["int", 97]]
         return ["assign", x, sub, rhs, loops]
     if c < 0.74:
         f = rng.choice(["<func>f", "<func>g2", "<func>raise_h", "<func>p0"])
